@@ -141,6 +141,62 @@ fn merge_counter(into: &mut BTreeMap<String, u64>, k: &str, v: u64) {
 }
 
 /// Body of a forked worker: never returns.
+/// Liveness ticks of this process: one per finished job and one per cancel poll of a build.
+pub static TICKS: std::sync::atomic::AtomicU64 = std::sync::atomic::AtomicU64::new(0);
+
+pub fn tick() {
+    TICKS.fetch_add(1, std::sync::atomic::Ordering::Relaxed);
+}
+
+/// CPU seconds a worker may burn without a tick before it is declared non-terminating.
+pub const STALL_CPU_SECS: f64 = 90.0;
+/// Wall seconds a worker may sit without a tick while using no CPU at all before it is declared blocked.
+pub const BLOCKED_WALL_SECS: f64 = 600.0;
+pub const EXIT_STALLED: i32 = 97;
+pub const EXIT_BLOCKED: i32 = 98;
+
+fn process_cpu_secs() -> f64 {
+    let mut ts = libc::timespec { tv_sec: 0, tv_nsec: 0 };
+    unsafe { libc::clock_gettime(libc::CLOCK_PROCESS_CPUTIME_ID, &mut ts) };
+    ts.tv_sec as f64 + ts.tv_nsec as f64 * 1e-9
+}
+
+/// The watchdog of a worker process. A job that neither finishes nor polls its cancel callback
+/// cannot be stopped by the poll horizon, so it is judged on the CPU time it consumes (which does
+/// not depend on how loaded the machine is): `STALL_CPU_SECS` of CPU without a tick ends the
+/// process with `EXIT_STALLED`, and the coordinator reports the job it was executing. A job that
+/// sits without using any CPU (a deadlock) ends it with `EXIT_BLOCKED` after `BLOCKED_WALL_SECS`.
+fn spawn_watchdog(stop_file: Option<std::path::PathBuf>) {
+    std::thread::spawn(move || {
+        let mut last_ticks = TICKS.load(std::sync::atomic::Ordering::Relaxed);
+        let mut cpu_at_tick = process_cpu_secs();
+        let mut wall_at_tick = Instant::now();
+        loop {
+            std::thread::sleep(std::time::Duration::from_millis(500));
+            let t = TICKS.load(std::sync::atomic::Ordering::Relaxed);
+            let cpu = process_cpu_secs();
+            if t != last_ticks {
+                last_ticks = t;
+                cpu_at_tick = cpu;
+                wall_at_tick = Instant::now();
+                continue;
+            }
+            let burnt = cpu - cpu_at_tick;
+            let code = if burnt > STALL_CPU_SECS {
+                EXIT_STALLED
+            } else if wall_at_tick.elapsed().as_secs_f64() > BLOCKED_WALL_SECS && burnt < 1.0 {
+                EXIT_BLOCKED
+            } else {
+                continue;
+            };
+            if let Some(f) = &stop_file {
+                let _ = std::fs::write(f, b"");
+            }
+            unsafe { libc::_exit(code) }
+        }
+    });
+}
+
 fn worker_main<Y: System>(
     sys: &Y,
     jobs: &[Job<Y::State, Y::Action>],
@@ -156,7 +212,9 @@ fn worker_main<Y: System>(
         let mut j = wi;
         let mut timed_out = false;
         let stop_file = path.with_file_name("stop-layer");
+        spawn_watchdog(if sys.stop_layer_on_violation() { Some(stop_file.clone()) } else { None });
         while j < jobs.len() {
+            tick();
             if Instant::now() > deadline {
                 timed_out = true;
                 break;
@@ -365,18 +423,26 @@ pub fn explore<Y: System>(sys: &Y, caps: &Caps) -> Outcome {
                 let crashed = wi + done_jobs * workers;
                 let how = if libc::WIFSIGNALED(status) {
                     format!("signal {}", libc::WTERMSIG(status))
+                } else if libc::WEXITSTATUS(status) == EXIT_STALLED {
+                    format!("non-termination: {STALL_CPU_SECS} s of CPU consumed without finishing or polling the cancel callback")
+                } else if libc::WEXITSTATUS(status) == EXIT_BLOCKED {
+                    format!("blocked: {BLOCKED_WALL_SECS} s without finishing, polling or using any CPU")
                 } else {
                     format!("exit status {}", libc::WEXITSTATUS(status))
                 };
                 if crashed < jobs.len() {
                     let job = &jobs[crashed];
                     let trace = trace_of::<Y>(sys, &nodes, job.node, Some(&job.action));
-                    let sig = format!("CRASH/{}:{}", sys.name(), how);
+                    let sig = match libc::WIFEXITED(status).then(|| libc::WEXITSTATUS(status)) {
+                        Some(EXIT_STALLED) => format!("B/non-terminating-uncancellable:{}", sys.name()),
+                        Some(EXIT_BLOCKED) => format!("B/blocked:{}", sys.name()),
+                        _ => format!("CRASH/{}:{}", sys.name(), how),
+                    };
                     if signatures.insert(sig.clone()) {
                         out.violations.push(Violation {
                             signature: sig,
                             what: format!(
-                                "the process executing {} died with {how} (abort, stack overflow or kill)",
+                                "the process executing {} ended with {how}",
                                 sys.action_json(&job.action)
                             ),
                             replay: json!({"engine": sys.name(), "config": sys.config_json(), "actions": trace}),
